@@ -30,6 +30,10 @@ pub trait LockableMapConfig {
     /// It is `None` if we locked and then unlocked a key that
     /// actually doesn't have an entry in the map.
     fn on_unlock<V>(&self, v: Option<&mut Self::WrappedV<V>>);
+
+    /// Verification hook: the `last_unlocked` time stamp of a wrapped value, if this map type has one.
+    #[cfg(feature = "verif_hooks")]
+    fn verif_stamp<V>(v: &Self::WrappedV<V>) -> Option<tokio::time::Instant>;
 }
 
 #[derive(Debug)]
@@ -119,6 +123,8 @@ where
     }
 
     fn _entries(&self) -> EntriesGuard<'_, K, V, C> {
+        #[cfg(feature = "verif_hooks")]
+        crate::verif_hooks::before_entries();
         EntriesGuard::new(self.entries
             .lock()
             .expect("The global mutex protecting the LockableCache is poisoned. This shouldn't happen since there shouldn't be any user code running while this lock is held so no thread should ever panic with it"))
@@ -192,6 +198,8 @@ where
                         std::mem::drop(entries);
                         locked
                     };
+                    #[cfg(feature = "verif_hooks")]
+                    crate::verif_hooks::before_callback();
                     on_evict(locked).await?;
                 }
             }
@@ -281,6 +289,8 @@ where
                         std::mem::drop(entries);
                         locked
                     };
+                    #[cfg(feature = "verif_hooks")]
+                    crate::verif_hooks::before_callback();
                     on_evict(locked)?;
                 }
             }
@@ -521,6 +531,10 @@ where
         key: &K,
         mut guard: ReplicaOwnedMutexGuard<EntryValue<C::WrappedV<V>>>,
     ) {
+        #[cfg(feature = "verif_hooks")]
+        crate::verif_hooks::at(crate::verif_hooks::Site::UnlockBegin(
+            crate::verif_hooks::key_hash(key),
+        ));
         self.config.on_unlock(guard.value.as_mut());
         let entry_carries_a_value = guard.value.is_some();
 
@@ -662,6 +676,65 @@ where
     }
 }
 
+#[cfg(feature = "verif_hooks")]
+impl<K, V, C> LockableMapImpl<K, V, C>
+where
+    K: Eq + PartialEq + Hash + Clone,
+    C: LockableMapConfig + Clone,
+{
+    /// Verification hook: a snapshot of the internal map, in iteration order.
+    /// Doesn't go through [Self::_entries], so it neither yields nor runs the invariant assertions.
+    pub fn verif_snapshot(&self) -> crate::verif_hooks::Snapshot<K, V>
+    where
+        V: Clone,
+    {
+        use crate::verif_hooks::{SnapEntry, Snapshot};
+        let (entries, poisoned) = match self.entries.try_lock() {
+            Ok(entries) => (entries, false),
+            Err(std::sync::TryLockError::Poisoned(err)) => (err.into_inner(), true),
+            Err(std::sync::TryLockError::WouldBlock) => {
+                return Snapshot {
+                    poisoned: false,
+                    glock_held: true,
+                    entries: vec![],
+                };
+            }
+        };
+        let entries = entries
+            .iter()
+            .map(|(key, entry)| {
+                let num_replicas = entry.num_replicas();
+                let addr = entry.verif_addr();
+                match entry.verif_try_lock() {
+                    Some(guard) => SnapEntry {
+                        key: key.clone(),
+                        locked: false,
+                        value: guard.value.as_ref().map(|v| C::borrow_value(v).clone()),
+                        has_value: Some(guard.value.is_some()),
+                        stamp: guard.value.as_ref().and_then(|v| C::verif_stamp(v)),
+                        num_replicas,
+                        addr,
+                    },
+                    None => SnapEntry {
+                        key: key.clone(),
+                        locked: true,
+                        value: None,
+                        has_value: None,
+                        stamp: None,
+                        num_replicas,
+                        addr,
+                    },
+                }
+            })
+            .collect();
+        Snapshot {
+            poisoned,
+            glock_held: false,
+            entries,
+        }
+    }
+}
+
 impl<K, V, C> Debug for LockableMapImpl<K, V, C>
 where
     K: Eq + PartialEq + Hash + Clone,
@@ -684,6 +757,8 @@ where
     _k: PhantomData<K>,
     _v: PhantomData<V>,
     _c: PhantomData<C>,
+    #[cfg(feature = "verif_hooks")]
+    _depth: crate::verif_hooks::GlockDepth,
 }
 
 impl<'a, K, V, C> EntriesGuard<'a, K, V, C>
@@ -693,6 +768,9 @@ where
 {
     #[track_caller]
     fn new(entries: std::sync::MutexGuard<'a, C::MapImpl<K, V>>) -> Self {
+        #[cfg(feature = "verif_hooks")]
+        let depth = crate::verif_hooks::GlockDepth::enter();
+
         #[cfg(any(test, feature = "slow_assertions"))]
         Self::assert_invariant(&entries);
 
@@ -701,6 +779,8 @@ where
             _k: PhantomData,
             _v: PhantomData,
             _c: PhantomData,
+            #[cfg(feature = "verif_hooks")]
+            _depth: depth,
         }
     }
 
